@@ -6,7 +6,7 @@ import ast
 
 from framelint.core import rule, Ctx
 from framelint.srcmodel import walk_own, AnalysisError
-from framelint.canon import (canon_function, show, S, to_poly, mk_lt, mk_not, mk_and, k_num, contains, skey, atoms_of, Sigma, K_TRUE,
+from framelint.canon import (canon_function, show, S, to_poly, mk_lt, mk_not, mk_and, mk_eq, k_num, contains, skey, atoms_of, Sigma, K_TRUE,
                              single_defs, deref, Poly)
 from framelint.cfg import ENTRY, EXIT
 from .common import SPEC, SPECALG, MODULE, call_name, norm_stmt, stmt_calls, facts_text
@@ -320,6 +320,18 @@ def r4(ctx: Ctx) -> None:
                         and sigma_xy().apply(pts[0][2][0]) == pts[0][2][1]):
                     ctx.report(k.where, "centroid-definition", "the centre recomputed from the rectangles is not the area-weighted centroid that recenter_rectangles "
                                "moves onto the placed centre", lineno=k.node.lineno)
+    # a hard module without rectangles (a movable terminal) has nothing to move: the centroid -- a division by the total
+    # rectangle area -- is computed only for a non-empty rectangle list
+    gr = ctx.cfg(r)
+    nrect = ("a", s_, "num_rectangles")
+    lenr = ("c", ("g", "len"), (("a", s_, "rectangles"),), ())
+    nonempty = {mk_not(mk_eq(nrect, k_num(0))), mk_lt(k_num(0), nrect), mk_not(mk_eq(lenr, k_num(0))), mk_lt(k_num(0), lenr), ("a", s_, "rectangles")}
+    divs = [n for n in gr.stmt_nodes() if n.kind == "stmt" and any(isinstance(x, ast.BinOp) and isinstance(x.op, ast.Div) for x in ast.walk(n.ast))]
+    ctx.site(r.where, "the centroid of the rectangles is computed only when there are rectangles", divisions=len(divs))
+    for n in divs:
+        if not (nonempty & set(gr.facts_at(n.id))):
+            ctx.report(r.where, f"recenter-empty {norm_stmt(n.ast)[:80]}", "recenter_rectangles divides by the total rectangle area of a module that may have no "
+                       "rectangles: spectral placement of a netlist with a movable terminal fails with ZeroDivisionError", lineno=n.lineno)
     facts = ctx.cfg(r).facts_at(EXIT)
     guard_ok = ("a", s_, "is_hard") in facts and mk_not(("a", s_, "is_fixed")) in facts
     if not ok or not guard_ok:
